@@ -54,6 +54,18 @@ struct Obs {
     thread_slots: Mutex<HashMap<thread::ThreadId, usize>>,
     panics_left: AtomicUsize,
     factory_news: AtomicUsize,
+    /// slot_of[cid] = worker thread slot + 1 of the call that identified it
+    slot_of: Vec<AtomicU64>,
+    nlisteners: usize,
+    /// C07 workload: scripted readiness. ready[slot * 4 + listener] = 1 iff that service's latest readiness answer on
+    /// that worker thread was Ready and no call has happened on that thread since
+    c07_on: std::sync::atomic::AtomicBool,
+    ready: Vec<std::sync::atomic::AtomicU8>,
+    c07_calls_checked: AtomicU64,
+    c07_pendings: AtomicU64,
+    c07_errs: AtomicU64,
+    c07_errs_left: AtomicUsize,
+    c07_bad: Mutex<Option<String>>,
 }
 
 thread_local! {
@@ -80,6 +92,7 @@ struct Fac {
 struct Svc {
     listener: u64,
     obs: Arc<Obs>,
+    polls: std::cell::Cell<u64>,
 }
 
 impl ServiceFactory<actix_rt::net::TcpStream> for Fac {
@@ -92,13 +105,15 @@ impl ServiceFactory<actix_rt::net::TcpStream> for Fac {
     fn new_service(&self, _: ()) -> Self::Future {
         self.obs.factory_news.fetch_add(1, Relaxed);
         let (listener, obs) = (self.listener, self.obs.clone());
-        Box::pin(async move { Ok(Svc { listener, obs }) })
+        Box::pin(async move { Ok(Svc { listener, obs, polls: std::cell::Cell::new(0) }) })
     }
 }
 
 struct InFlight(Arc<Obs>, usize);
 impl Drop for InFlight {
     fn drop(&mut self) {
+        #[cfg(actix_net_verif)]
+        actix_server::verif::emit(actix_server::verif::Ev::User { kind: "plain_end", a: self.1 as u64, b: 0, c: 0 });
         self.0.in_flight[self.1].fetch_sub(1, Relaxed);
     }
 }
@@ -107,13 +122,57 @@ impl Service<actix_rt::net::TcpStream> for Svc {
     type Response = ();
     type Error = ();
     type Future = Pin<Box<dyn Future<Output = Result<(), ()>>>>;
-    actix_service::always_ready!();
+    fn poll_ready(&self, cx: &mut std::task::Context<'_>) -> Poll<Result<(), ()>> {
+        if !self.obs.c07_on.load(Relaxed) {
+            return Poll::Ready(Ok(()));
+        }
+        let s = slot(&self.obs);
+        let cell = &self.obs.ready[(s % 64) * 4 + self.listener as usize];
+        let n = self.polls.get();
+        self.polls.set(n + 1);
+        if n % 7 == 3 {
+            // not ready for a moment; woken by a timer on the worker's own runtime
+            cell.store(0, Relaxed);
+            self.obs.c07_pendings.fetch_add(1, Relaxed);
+            let w = cx.waker().clone();
+            tokio::task::spawn_local(async move {
+                tokio::time::sleep(Duration::from_micros(300)).await;
+                w.wake();
+            });
+            return Poll::Pending;
+        }
+        if n % 11 == 5 && self.obs.c07_errs_left.load(Relaxed) > 0 && self.obs.c07_errs_left.fetch_sub(1, Relaxed) > 0 {
+            // readiness failure: the worker re-creates this service from its factory
+            cell.store(0, Relaxed);
+            self.obs.c07_errs.fetch_add(1, Relaxed);
+            return Poll::Ready(Err(()));
+        }
+        cell.store(1, Relaxed);
+        Poll::Ready(Ok(()))
+    }
     fn call(&self, mut stream: actix_rt::net::TcpStream) -> Self::Future {
         let obs = self.obs.clone();
         let listener = self.listener;
         let s = slot(&obs);
+        if obs.c07_on.load(Relaxed) {
+            // boundary monitor: every service of this worker answered Ready since the previous call on this thread
+            let base = (s % 64) * 4;
+            let answers: Vec<u8> = (0..obs.nlisteners).map(|l| obs.ready[base + l].load(Relaxed)).collect();
+            if answers.iter().any(|a| *a != 1) {
+                let mut g = obs.c07_bad.lock().unwrap();
+                if g.is_none() {
+                    *g = Some(format!("service of listener {listener} was called on worker thread slot {s} although the latest readiness answers of that worker's services (1 = Ready since the previous call) are {answers:?}"));
+                }
+            }
+            for l in 0..obs.nlisteners {
+                obs.ready[base + l].store(0, Relaxed);
+            }
+            obs.c07_calls_checked.fetch_add(1, Relaxed);
+        }
         let n = obs.in_flight[s].fetch_add(1, Relaxed) + 1;
         obs.max_in_flight.fetch_max(n, Relaxed);
+        #[cfg(actix_net_verif)]
+        actix_server::verif::emit(actix_server::verif::Ev::User { kind: "plain_call", a: s as u64, b: n as u64, c: 0 });
         let guard = InFlight(obs.clone(), s);
         if obs.panics_left.load(Relaxed) > 0 && obs.panics_left.fetch_sub(1, Relaxed) > 0 {
             panic!("scripted call panic");
@@ -124,6 +183,7 @@ impl Service<actix_rt::net::TcpStream> for Svc {
             stream.read_exact(&mut hdr).await.map_err(|_| ())?;
             let cid = u64::from_le_bytes(hdr[..8].try_into().unwrap()) as usize;
             if cid < obs.served.len() {
+                obs.slot_of[cid].store(s as u64 + 1, Relaxed);
                 let prev = obs.served[cid].swap(listener + 1, Relaxed);
                 if prev != 0 {
                     obs.served[cid].store(prev | (1 << 63), Relaxed);
@@ -156,7 +216,42 @@ struct Scn {
     panics: usize,
 }
 
-fn run_scn(scn: &Scn, seed: u64) -> Result<(u64, u64), (String, String)> {
+#[derive(Default)]
+struct Extra {
+    rr_windows: u64,
+    paused_probes: u64,
+    pending_drained: u64,
+    c07_calls: u64,
+    c07_pendings: u64,
+    c07_errs: u64,
+}
+
+fn hdr_for(cid: usize, mode: u8) -> [u8; 9] {
+    let mut hdr = [0u8; 9];
+    hdr[..8].copy_from_slice(&(cid as u64).to_le_bytes());
+    hdr[8] = mode;
+    hdr
+}
+
+/// Waits up to `max` for the one-byte acknowledgement.
+fn acked_within(s: &mut StdTcp, max: Duration) -> bool {
+    let t0 = Instant::now();
+    let _ = s.set_read_timeout(Some(Duration::from_millis(20)));
+    let mut b = [0u8; 1];
+    while t0.elapsed() < max {
+        match s.read(&mut b) {
+            Ok(1) => return true,
+            Ok(_) => return false,
+            Err(e) if e.kind() == std::io::ErrorKind::WouldBlock || e.kind() == std::io::ErrorKind::TimedOut => {}
+            Err(_) => return false,
+        }
+    }
+    false
+}
+
+fn run_scn(scn: &Scn, seed: u64, prop: &str, extra: &mut Extra) -> Result<(u64, u64), (String, String)> {
+    #[cfg(actix_net_verif)]
+    actix_server::verif::start_recording();
     let total = scn.threads * scn.per_thread + 64;
     let obs = Arc::new(Obs {
         served: (0..total).map(|_| AtomicU64::new(0)).collect(),
@@ -165,6 +260,15 @@ fn run_scn(scn: &Scn, seed: u64) -> Result<(u64, u64), (String, String)> {
         thread_slots: Mutex::new(HashMap::new()),
         panics_left: AtomicUsize::new(0),
         factory_news: AtomicUsize::new(0),
+        slot_of: (0..total).map(|_| AtomicU64::new(0)).collect(),
+        nlisteners: scn.listeners,
+        c07_on: std::sync::atomic::AtomicBool::new(false),
+        ready: (0..64 * 4).map(|_| std::sync::atomic::AtomicU8::new(0)).collect(),
+        c07_calls_checked: AtomicU64::new(0),
+        c07_pendings: AtomicU64::new(0),
+        c07_errs: AtomicU64::new(0),
+        c07_errs_left: AtomicUsize::new(0),
+        c07_bad: Mutex::new(None),
     });
     let mut lst = Vec::new();
     let mut addrs = Vec::new();
@@ -194,18 +298,86 @@ fn run_scn(scn: &Scn, seed: u64) -> Result<(u64, u64), (String, String)> {
         }
     });
     let handle = hrx.recv_timeout(Duration::from_secs(60)).map_err(|_| ("harness".to_string(), "server did not start".to_string()))?;
+    let next_cid = Arc::new(AtomicUsize::new(1));
+    let conn_listener: Arc<Vec<AtomicU64>> = Arc::new((0..total).map(|_| AtomicU64::new(0)).collect());
+
+    // ---- C04: with every worker idle, `workers` connections made one after the other land on distinct workers
+    if prop == "C04" {
+        let mut keep = Vec::new();
+        let mut slots = Vec::new();
+        for _ in 0..scn.workers {
+            let cid = next_cid.fetch_add(1, Relaxed);
+            let l = cid % addrs.len();
+            let mut s = StdTcp::connect_timeout(&addrs[l], Duration::from_secs(5)).map_err(|e| ("harness".to_string(), e.to_string()))?;
+            conn_listener[cid].store(l as u64 + 1, Relaxed);
+            let _ = s.write_all(&hdr_for(cid, b'H'));
+            if !acked_within(&mut s, Duration::from_secs(30)) {
+                return Err(("C04:tsan-workload:idle-server-does-not-serve".into(), format!("connection {cid} to an idle server was not acknowledged within 30 s")));
+            }
+            slots.push(obs.slot_of[cid].load(Relaxed));
+            keep.push(s);
+        }
+        let mut d = slots.clone();
+        d.sort();
+        d.dedup();
+        if d.len() != slots.len() {
+            return Err((
+                "C04:tsan-workload:round-robin-window-repeats-worker".into(),
+                format!("{} connections made one at a time to {} idle workers (limit {}) were served on worker thread slots {:?}", slots.len(), scn.workers, scn.limit, slots),
+            ));
+        }
+        extra.rr_windows += 1;
+        drop(keep);
+        thread::sleep(Duration::from_millis(20));
+    }
+
+    // ---- C05: nothing is served while paused, everything is once resumed
+    if prop == "C05" {
+        if block_on_timeout(handle.pause(), Duration::from_secs(20)).is_none() {
+            return Err(("C05:tsan-workload:pause-never-resolves".into(), "pause() did not resolve within 20 s".into()));
+        }
+        // the pause future resolves when the command was handed to the accept thread; give it ample time to act
+        thread::sleep(Duration::from_millis(400));
+        let mut probes = Vec::new();
+        for l in 0..addrs.len() {
+            let cid = next_cid.fetch_add(1, Relaxed);
+            let mut s = StdTcp::connect_timeout(&addrs[l], Duration::from_secs(5)).map_err(|e| ("harness".to_string(), format!("connect while paused: {e}")))?;
+            conn_listener[cid].store(l as u64 + 1, Relaxed);
+            let _ = s.write_all(&hdr_for(cid, b'F'));
+            probes.push((cid, s));
+        }
+        for (cid, s) in probes.iter_mut() {
+            if acked_within(s, Duration::from_millis(60)) {
+                return Err(("C05:tsan-workload:served-while-paused".into(), format!("connection {cid} made 400 ms after pause() resolved was served before resume()")));
+            }
+        }
+        if block_on_timeout(handle.resume(), Duration::from_secs(20)).is_none() {
+            return Err(("C05:tsan-workload:resume-never-resolves".into(), "resume() did not resolve within 20 s".into()));
+        }
+        for (cid, s) in probes.iter_mut() {
+            if !acked_within(s, Duration::from_secs(30)) {
+                return Err(("C05:tsan-workload:not-served-after-resume".into(), format!("connection {cid} made while paused was not served within 30 s after resume()")));
+            }
+            extra.paused_probes += 1;
+        }
+    }
+
+    if prop == "C07" {
+        obs.c07_errs_left.store(1 + (seed % 3) as usize, Relaxed);
+        obs.c07_on.store(true, Relaxed);
+    }
     obs.panics_left.store(scn.panics, Relaxed);
 
     // ---- clients
-    let next_cid = Arc::new(AtomicUsize::new(1));
-    let conn_listener: Arc<Vec<AtomicU64>> = Arc::new((0..total).map(|_| AtomicU64::new(0)).collect());
     let mut ths = Vec::new();
     for t in 0..scn.threads {
         let (addrs, next_cid, conn_listener) = (addrs.clone(), next_cid.clone(), conn_listener.clone());
         let n = scn.per_thread;
+        let keep_pending = prop == "C03";
         let mut r = Rng::new(seed ^ (t as u64 + 1) * 7919);
         ths.push(thread::spawn(move || {
             let mut held: Vec<StdTcp> = Vec::new();
+            let mut pending: Vec<(usize, StdTcp)> = Vec::new();
             let mut acked = 0u64;
             for _ in 0..n {
                 let l = r.usize(addrs.len());
@@ -220,6 +392,10 @@ fn run_scn(scn: &Scn, seed: u64) -> Result<(u64, u64), (String, String)> {
                     let mut b = [0u8; 1];
                     if let Ok(1) = s.read(&mut b) {
                         acked += 1;
+                    } else if keep_pending {
+                        // not served yet (workers saturated): stays open, must be served once capacity is released
+                        pending.push((cid, s));
+                        continue;
                     }
                     if r.chance(2, 3) {
                         held.push(s);
@@ -230,7 +406,7 @@ fn run_scn(scn: &Scn, seed: u64) -> Result<(u64, u64), (String, String)> {
                     }
                 }
             }
-            (held, acked)
+            (held, acked, pending)
         }));
     }
     if scn.pause_resume {
@@ -240,13 +416,46 @@ fn run_scn(scn: &Scn, seed: u64) -> Result<(u64, u64), (String, String)> {
         let _ = block_on_timeout(handle.resume(), Duration::from_secs(20));
     }
     let mut held_all = Vec::new();
+    let mut pending_all: Vec<(usize, StdTcp)> = Vec::new();
     let mut acked = 0;
     for t in ths {
-        if let Ok((h, a)) = t.join() {
+        if let Ok((h, a, p)) = t.join() {
             held_all.extend(h);
+            pending_all.extend(p);
             acked += a;
         }
     }
+    // ---- C03: release everything that is held; every connection still waiting must now be served
+    if prop == "C03" {
+        held_all.clear();
+        // they are served in backlog order, not in this list's order, and an 'H' one holds its slot until it is closed:
+        // poll them all, close each as soon as it was acknowledged; the 30 s window restarts whenever one makes progress
+        let mut t0 = Instant::now();
+        while !pending_all.is_empty() && t0.elapsed() < Duration::from_secs(30) {
+            let mut progressed = 0;
+            pending_all.retain_mut(|(_, s)| {
+                if acked_within(s, Duration::from_millis(5)) {
+                    let _ = s.shutdown(std::net::Shutdown::Both);
+                    progressed += 1;
+                    false
+                } else {
+                    true
+                }
+            });
+            if progressed > 0 {
+                extra.pending_drained += progressed;
+                t0 = Instant::now();
+            }
+        }
+        if let Some((cid, _)) = pending_all.first() {
+            return Err((
+                "C03:tsan-workload:pending-connection-never-served".into(),
+                format!("connection {cid} (and {} more) was waiting while the workers were saturated; every served connection has been closed since and for 30 s none of the waiting ones was served (calls in progress per thread slot: {:?})", pending_all.len() - 1, obs.in_flight.iter().take(6).map(|x| x.load(Relaxed)).collect::<Vec<_>>()),
+            ));
+        }
+        pending_all.clear();
+    }
+    drop(pending_all);
     // after a worker death the server must keep serving: one more client must be acknowledged
     // (held connections may occupy every slot: release them first)
     if scn.panics > 0 {
@@ -279,6 +488,10 @@ fn run_scn(scn: &Scn, seed: u64) -> Result<(u64, u64), (String, String)> {
             ));
         }
     }
+    // the concurrency bound is judged on what happened before the stop was issued: once workers exit, the accept thread
+    // (until it has processed its own stop message) sees their closed channels as faults and force-sends to whichever
+    // worker is left, saturated or not, exactly as after a fault, which C02 excludes
+    let max_before_stop = obs.max_in_flight.load(Relaxed);
     let stopped = block_on_timeout(handle.stop(scn.graceful), Duration::from_secs(60)).is_some();
     drop(held_all);
     if !stopped {
@@ -302,7 +515,20 @@ fn run_scn(scn: &Scn, seed: u64) -> Result<(u64, u64), (String, String)> {
             return Err(("C01:tsan-workload:wrong-listener-service".into(), format!("connection {cid} made to listener {} was served by listener {}'s service", want - 1, v - 1)));
         }
     }
-    let max = obs.max_in_flight.load(Relaxed);
+    if let Some(bad) = obs.c07_bad.lock().unwrap().take() {
+        return Err(("C07:tsan-workload:called-without-fresh-readiness".into(), bad));
+    }
+    extra.c07_calls += obs.c07_calls_checked.load(Relaxed);
+    extra.c07_pendings += obs.c07_pendings.load(Relaxed);
+    extra.c07_errs += obs.c07_errs.load(Relaxed);
+    let max = max_before_stop;
+    #[cfg(actix_net_verif)]
+    if scn.panics == 0 && max > scn.limit {
+        // debugging aid (hooks build of this binary only): dump the hook log of the failing scenario
+        let log = actix_server::verif::log_since(0);
+        let txt: Vec<String> = log.iter().map(|r| format!("#{} t={}us th={:x} {:?}", r.seq, r.t_us, r.thread & 0xffff, r.ev)).collect();
+        let _ = std::fs::write(format!("/tmp/plain_c02_{seed}.log"), txt.join("\n"));
+    }
     if scn.panics == 0 && max > scn.limit {
         return Err(("C02:tsan-workload:service-concurrency-beyond-limit".into(), format!("{max} service calls in progress on one worker thread, limit {}", scn.limit)));
     }
@@ -319,6 +545,7 @@ fn main() {
     let n = args.extra_u64("n", 60);
     let mut rng = Rng::new(args.seed ^ 0x7541).fork(args.shard);
     let (mut served, mut acked, mut with_panics) = (0u64, 0u64, 0u64);
+    let mut extra = Extra::default();
     let fixed = args.extra.get("case_seed").and_then(|v| v.parse::<u64>().ok());
     for i in 0..n {
         let mut seed = rng.next_u64();
@@ -346,7 +573,7 @@ fn main() {
         if scn.panics > 0 {
             with_panics += 1;
         }
-        match run_scn(&scn, seed) {
+        match run_scn(&scn, seed, &args.prop, &mut extra) {
             Ok((s, a)) => {
                 served += s;
                 acked += a;
@@ -358,6 +585,7 @@ fn main() {
                     rep.violation(sig, format!("{desc} [{shape}]"), json!({"prop": args.prop, "case_seed": seed, "shape": shape}));
                 } else {
                     rep.count("other_property_violations_seen");
+                    rep.note(format!("violation of another property seen by this workload (reported by that property's own layer): {sig}: {desc} [{shape}] case_seed={seed}"));
                 }
             }
         }
@@ -365,11 +593,18 @@ fn main() {
             rep.sample(|| json!({"shape": shape}));
         }
     }
-    rep.rule = "sanitizer workload (no hooks): real actix-server, workers 1..3 x limit 1..3 x 1..2 TCP listeners x {Actix, Tokio}, 2..6 client threads x 4..13 connections (hold / finish, random releases), optional pause+resume, graceful or forced stop, for C08 also 1..2 scripted call panics; \
+    rep.rule = "sanitizer workload (no hooks): real actix-server, workers 1..3 x limit 1..3 x 1..2 TCP listeners x {Actix, Tokio}, 2..6 client threads x 4..13 connections (hold / finish, random releases), optional pause+resume, graceful or forced stop, for C08 also 1..2 scripted call panics; per property in addition: C03 connections left waiting while saturated are kept open and must be served after everything else was released, C04 `workers` one-at-a-time connections to an idle server land on distinct worker threads, \
+                C05 connections made 400 ms after pause() resolved are not served until resume() and are served after it, C07 services answer Pending (timer wake-up) on every 7th and Err on some readiness polls and every call must find every service of its worker thread Ready since the previous call; \
                 boundary oracles with relaxed atomics only (identified at most once and by the right listener's service; per-thread call concurrency <= limit without faults; stop resolves; service resumes after worker deaths). The deciding observer of this layer is the sanitizer itself (any report fails the check)."
         .into();
     rep.add("obs_tsan_workload_connections_served", served);
     rep.add("obs_tsan_workload_clients_acked", acked);
     rep.add("obs_tsan_workload_fault_scenarios", with_panics);
+    rep.add("obs_tsan_workload_rr_windows_distinct", extra.rr_windows);
+    rep.add("obs_tsan_workload_paused_probes_served_after_resume", extra.paused_probes);
+    rep.add("obs_tsan_workload_pending_served_after_release", extra.pending_drained);
+    rep.add("obs_tsan_workload_calls_with_fresh_readiness", extra.c07_calls);
+    rep.add("obs_tsan_workload_readiness_pendings", extra.c07_pendings);
+    rep.add("obs_tsan_workload_readiness_errors", extra.c07_errs);
     std::process::exit(rep.finish(&args));
 }
